@@ -327,4 +327,10 @@ Definition numgrad (w : list T) (e : fexpr (wspace w)) (m : ngmethod) (h : T) (x
          | NGBackward => (f x - f (vsub x (unit_step n i h))) / h
          | NGCentral => (f (vadd x (unit_step n i (h / of_Z 2))) - f (vsub x (unit_step n i (h / of_Z 2)))) / h
          end) (seq 0 n).
+(* Behaviour switch for the open finding numericalgradient-weighted-space (measured by
+   the harness on the finding's replay input): riesz = false is the current code,
+   riesz = true the proposed repair (each partial derivative divided by <e_i,e_i> = w_i). *)
+Definition numgrad_v (riesz : bool) (w : list T) (e : fexpr (wspace w)) (m : ngmethod) (h : T)
+           (x : list T) : list T :=
+  if riesz then vdiv (numgrad w e m h x) w else numgrad w e m h x.
 End Lists.
